@@ -49,3 +49,10 @@ Theorem C03_delete_removes : forall s name p,
   h_proxy_delete s name = (mkResp status_no_content PNone, remove_proxy s name).
 Proof. intros s name p H. unfold h_proxy_delete. now rewrite H. Qed.
 Print Assumptions C03_delete_removes.
+
+(** a populate entry that replaces a proxy stops the old incarnation - directly in the branch that found
+    it, before the replacement is started or filed, whatever the replacement's address and enabled flag
+    (regenerated from ProxyCollection.AddOrReplace); what stop() then guarantees is the lifecycle theorem *)
+Theorem C03_replace_stops_the_old_proxy : replace_stops_the_old_proxy = true.
+Proof. reflexivity. Qed.
+Print Assumptions C03_replace_stops_the_old_proxy.
